@@ -24,7 +24,11 @@ THEOREMS = [P + t for t in (
     'chi2_is_min_value', 'chi2_vec_optimum', 'iterate_is_sweeps', 'sweep_badness_le', 'iterate_badness_antitone',
     'astep_gradient_vanishes', 'gstep_gradient_vanishes', 'nn_zero_stays_zero', 'astepnn_fixed_point_kkt',
     'pcomp_derived_uncorrelated', 'pca_final_state', 'pca_final_coeff_is_projection',
-    'gstepnn_fixed_point_kkt', 'findContiguous_block', 'iterateCols_block')]
+    'gstepnn_fixed_point_kkt', 'findContiguous_block', 'iterateCols_block',
+    # extension round 2
+    'findContiguous_longest_first', 'findContiguous_none_iff',
+    'astepnn_badness_le', 'gstepnn_badness_le', 'sweepNN_badness_le',
+    'iterateCols_block_longest', 'pcaSolveVec_spec', 'iterateKg_spec', 'gstep_eps_badness_le', 'gstepnn_eps_badness_le', 'iterateNN_badness_antitone')]
 TOL = 1e-7          # model (own Gauss / Jacobi kernels) and oracles against LAPACK results, relative to the array's scale
 TOL_ITER = 2e-6     # whole HMF / pca_solve runs (several chained solves)
 TOL_F32 = 2e-4      # pca_solve: projections on the eigenspectra that are RETURNED (rounded to float32)
@@ -34,16 +38,19 @@ RULE = ('chi2: full-rank n x m systems (m 1-6, n up to 40, condition < 1e3) with
         'K 1-4, epsilon in {None, 0, >0}, signed and non-negative states; hmf_solve: both modes, fixed seeds, run twice, with all-zero '
         'columns (in spectra, in invvar, or in their product only) at an edge, at both edges, in the middle, splitting the range into equal halves, several; '
         'pca: low-rank + noise spectra, masked pixels, niter 1-4, nkeep 1-3, maxiter 0-3, objects without signal (constant, all-zero, two of them, '
-        'also at an index below nkeep) and objects without any good pixel. A case is non-trivial when the real function '
+        'also at an index below nkeep) and objects without any good pixel; contig: find_contiguous alone on bool / int / float arrays of length 0-70 '
+        '(random density, equal runs = ties, all true / all false / one hole, longest run last) plus ALL boolean vectors up to length 8 (quick) / 12 (thorough); '
+        'pca_vec: one spectrum in 7 input forms (vector or 1 x npix flux; vector / 1-row / 2-row / all-zero newivar); hmf_fewk: spectra with fewer than K distinct rows '
+        '(kmeans must return fewer than K centroids), both modes, n_iter 0-3. A case is non-trivial when the real function '
         'returned arrays that were compared with the model and the oracle; distinct = distinct generator payloads.')
 TRUSTED = ['hand-written model lean/PydlVerif/Model/Solvers.lean tied to the code by the I/O correspondence of this run (tolerance %g / %g)' % (TOL, TOL_ITER),
            'kernel parameters of the model: sqrt, svd, eigh, solve, argsort, kmeans (contracts are hypotheses of the theorems; '
            'the driver instantiates them with its own Gauss elimination / Jacobi rotation code, the harness samples the contracts on LAPACK\'s outputs)',
-           'exact rational arithmetic (fractions.Fraction) and numpy.linalg.lstsq / eigvalsh as independent oracles']
+           'exact rational arithmetic (fractions.Fraction) and numpy.linalg.lstsq / eigvalsh as independent oracles; brute force over all blocks for find_contiguous']
 ASSUMPTIONS = ['float64 inputs; amatrix of computechi2 is N x M (or a vector of length N) with full column rank on the positively weighted rows',
                'HMF: the longest contiguous block of columns that are not all-zero keeps >= 3K+3 columns with >= K+2 good pixels per spectrum and per column, '
-               'kmeans returns K centroids, N >= 4K+4',
-               'pca_solve: two-dimensional input, at least nkeep+2 objects with signal, distinct leading eigenvalues (near-degenerate cases are judged by the oracle only); '
+               'kmeans returns K centroids, N >= 4K+4 (stream hmf_fewk: fewer centroids - the code raises ValueError or, with n_iter = 0 in default mode, returns the start values; model iterateKg)',
+               'pca_solve: two-dimensional input (a single spectrum, also as a vector: stream pca_vec, only the flux is returned), at least nkeep+2 objects with signal, distinct leading eigenvalues (near-degenerate cases are judged by the oracle only); '
                'djs_reject is called without rejection limits (as pca_solve does), so the outer loop for maxiter > 0 never rejects a pixel',
                'pcomp: distinct eigenvalues (eigenvectors are compared up to sign)',
                'aliasing ("caller\'s arrays are not modified") and seed reproducibility are decided by the harness only (bit copies, re-run)']
@@ -54,17 +61,21 @@ LEVEL_TEXT = ('Machine-checked Lean 4 theorems over an executable model of compu
               'every HMF a-/g-update is the per-row / per-column WLS optimum, the partial derivatives of badness (identified through the exact quadratic '
               'expansion along every coordinate) vanish after the step, and a WHOLE sweep astep; gstep; reorder; renormalise never increases badness '
               '(epsilon None/0; rotation and unit-rms normalisation leave a.g unchanged), hence badness is non-increasing along iterate; with '
-              'epsilon > 0 a g-step is stationary given the old neighbours; non-negativity of the multiplicative updates, zeros stay zeros, a fixed point of the '
-              'non-negative a-update (g-update, epsilon None/0) satisfies the KKT stationarity on its non-zero entries; the column block HMF.iterate keeps is non-empty, in range and free of zero columns; pcomp reconstruction identities and uncorrelated derived '
+              'epsilon > 0 a g-step is stationary given the old neighbours AND never increases badness = chi-square + penalty, for every epsilon > 0 (exact decrease identity, '
+              'Jacobi splitting with the signless Laplacian); non-negativity of the multiplicative updates, zeros stay zeros, ONE multiplicative update (astepnn for any epsilon, '
+              'gstepnn for epsilon None/0 and for epsilon > 0, the whole non-negative sweep for epsilon None/0) does not increase badness for non-negative weights and states '
+              '(Lee-Seung majorisation resp. the descent condition 2P - H >= 0, full matrix statement), a fixed point of the '
+              'non-negative a-update (g-update, epsilon None/0) satisfies the KKT stationarity on its non-zero entries; the column block HMF.iterate keeps (find_contiguous) is non-empty, in range, free of zero columns and is THE FIRST LONGEST block of good columns of the input (no block of consecutive good columns is longer, an equally long one starts later; ValueError exactly when no column is good; induction over the scan); HMF with fewer k-means centroids than K and pca_solve with a single spectrum given as a vector follow the code branch by branch (refusals included); pcomp reconstruction identities and uncorrelated derived '
               'variables (covariance diag(eigenvalue^2)) from the eigh contract; pca_solve: in the result of the whole loop outmask = (ivar != 0), usemask counts, '
               'and the returned coefficients are the weighted projections on the returned eigenspectra with the weights of the last iteration. '
               'The model is tied to the code on every run by I/O correspondence at tolerance and by independent oracles '
               '(exact rational least squares, lstsq, finite-difference gradients, bit copies, re-runs with the same seed).')
 LEVEL_NOTE = ('Partial: LAPACK svd/eigh/solve, libm sqrt, argsort and scipy kmeans are parameters with contracts assumed in the theorems '
-              '(sampled numerically here); IEEE rounding is not modelled (theorems are over ordered fields); monotonicity of the '
-              'epsilon > 0 g-step is not proved, only searched; the non-negative updates are not proved to decrease badness (counted); '
-              'seed reproducibility and aliasing are harness-only; find_contiguous: the kept block is proved non-empty, in range, free of zero columns and at least as long as every scanned run (that the scan finds ALL maximal runs is compared, not proved); '
-              'one-dimensional newflux of pca_solve and kmeans returning fewer than K centroids are outside the model.')
+              '(sampled numerically here); IEEE rounding is not modelled (theorems are over ordered fields); the monotonicity theorems for the multiplicative updates assume '
+              'non-zero denominators (where the code would divide by zero) and, with smoothing, at least two pixels (the code raises IndexError for one pixel, the model does not); '
+              'a WHOLE sweep with epsilon > 0 is not monotone in general (the unit-rms renormalisation rescales the penalty) and is not claimed; '
+              'seed reproducibility and aliasing are harness-only; documented behaviour outside the property text, modelled as refusals: pca_solve with a vector flux AND a vector '
+              'newivar raises IndexError, HMF.solve raises ValueError when kmeans returns fewer than K centroids (n_iter >= 1 or non-negative mode).')
 
 
 # ---------------------------------------------------------------- helpers
@@ -708,6 +719,15 @@ def _hmf_step_case(ctx, c):
             ctx.violate('hmf:gstep-gradient', 'gradient of badness wrt g after gstep is %.3g (before: %.3g)' % (np.abs(gr).max(), gref), full)
     else:
         ctx.count('hmf:gstep-eps>0:badness-' + ('decreased' if bg <= b0 else 'increased'))
+        # theorem gstep_eps_badness_le as an oracle on the real step: the decrease is EXACTLY
+        # sum_j sum_i w_ij (sum_k a_ik d_kj)^2 + eps * sum_k sum_j (d_kj + d_k,j+1)^2 with d = gstep - g
+        if M >= 2:
+            d = gn - g
+            dec = float(np.sum(w * (a @ d) ** 2)) + eps * float(np.sum((d[:, :-1] + d[:, 1:]) ** 2))
+            ctx.count('hmf:gstep-eps>0:decrease-identity-checks')
+            if abs((b0 - bg) - dec) > 1e-7 * max(1.0, b0, dec):
+                ctx.violate('hmf:gstep-eps>0:decrease-identity', 'badness(g) - badness(gstep) = %r, the identity of the smoothed per-pixel optimum gives %r (eps=%r)'
+                            % (b0 - bg, dec, eps), full)
     # one whole sweep of iterate in the default mode without smoothing (astep; gstep; reorder; renormalise):
     # badness does not increase, the rotation and the normalisation do not change it
     if not nn and not on:
@@ -739,6 +759,36 @@ def _hmf_step_case(ctx, c):
                 ctx.violate('hmf:' + k + '-negative', '%s produced a negative / non-finite entry from non-negative inputs' % k, full)
         bnn = _bad(s, w, impl['astepnn'], g, eps)
         ctx.count('hmf:astepnn:badness-' + ('decreased' if bnn <= b0 * (1 + 1e-12) else 'increased'))
+        # judged since extension 2 (theorems astepnn_badness_le / gstepnn_badness_le / sweepNN_badness_le cover the code's formulas):
+        # inside the hypotheses - weights >= 0, state (a, g) >= 0, denominators non-zero - one multiplicative update does not
+        # increase badness; the a-update for every epsilon (the penalty does not depend on a), the g-update for epsilon None/0
+        den_a = ((a @ g) * w) @ g.T
+        den_g = a.T @ ((a @ g) * w)
+        inside = bool(np.all(w >= 0) and np.all(a >= 0) and np.all(g >= 0) and np.all(den_a > 0) and np.all(den_g > 0))
+        ctx.count('hmf:nn-monotone:' + ('judged' if inside else 'outside-hypotheses'))
+        if inside:
+            if bnn > b0 * (1 + 1e-10) + 1e-12:
+                ctx.violate('hmf:astepnn-increases', 'badness increased in astepnn from a non-negative state: %r -> %r' % (b0, bnn), full)
+            bgn = _bad(s, w, a, impl['gstepnn'], eps)
+            if not on:
+                ctx.count('hmf:gstepnn:badness-' + ('decreased' if bgn <= b0 * (1 + 1e-12) else 'increased'))
+                if bgn > b0 * (1 + 1e-10) + 1e-12:
+                    ctx.violate('hmf:gstepnn-increases', 'badness increased in gstepnn (eps=%r) from a non-negative state: %r -> %r' % (eps, b0, bgn), full)
+                # whole non-negative sweep astepnn; gstepnn; renormalise
+                h3 = _mk_hmf(s.copy(), w.copy(), K, eps, nn)
+                h3.a, h3.g = a.copy(), g.copy()
+                h3.a = h3.astepnn()
+                h3.g = h3.gstepnn()
+                nb3 = h3.normbase()
+                bs3 = _bad(s, w, h3.a * nb3[None, :], h3.g / nb3[:, None], eps)
+                ctx.count('hmf:whole-nn-sweep-checks')
+                if bs3 > b0 * (1 + 1e-10) + 1e-12:
+                    ctx.violate('hmf:nn-sweep-increases', 'badness increased over one sweep astepnn; gstepnn; renormalise: %r -> %r' % (b0, bs3), full)
+            else:
+                # epsilon > 0: theorem gstepnn_eps_badness_le (M >= 2) - judged as well
+                ctx.count('hmf:gstepnn-eps>0:badness-' + ('decreased' if bgn <= b0 else 'increased'))
+                if M >= 2 and bgn > b0 * (1 + 1e-10) + 1e-12:
+                    ctx.violate('hmf:gstepnn-increases:eps>0', 'badness increased in gstepnn (eps=%r) from a non-negative state: %r -> %r' % (eps, b0, bgn), full)
 
 
 def _hmf_step(ctx, cases=None):
@@ -1115,8 +1165,253 @@ def _pca_many(ctx, cases=None):
             ctx.violate('pca:shape', 'unexpected shapes for %d spectra' % nobj, c)
 
 
+# ---------------------------------------------------------------- find_contiguous alone
+def _contig_case(ctx, c):
+    """find_contiguous(x) on its own: model (scan + first maximum), brute-force oracle over ALL blocks (the statement of
+    findContiguous_longest_first: no block of consecutive true entries is longer, among equally long ones the first)"""
+    from pydl.pydlutils.math import find_contiguous
+    good = [bool(b) for b in c['good']]
+    n = len(good)
+    dt = c['dtype']
+    if dt == 'bool':
+        x = np.array(good, dtype=bool)
+    elif dt == 'int':
+        x = np.array([(c['nseed'] >> (k % 20)) % 5 + 1 if b else 0 for k, b in enumerate(good)], dtype=np.int64)
+    else:
+        x = np.array([-0.5 - k if b else 0.0 for k, b in enumerate(good)], dtype=np.float64)
+    ctx.seen(c)
+    runs = []
+    k = 0
+    while k < n:
+        if good[k]:
+            e = k
+            while e < n and good[e]:
+                e += 1
+            runs.append((k, e - k))
+            k = e
+        else:
+            k += 1
+    lens = [r[1] for r in runs]
+    ctx.count('contig:runs=%s:ties=%s:%s' % (min(len(runs), 4), min(lens.count(max(lens)), 3) if lens else 0, dt))
+    before = x.tobytes()
+    try:
+        impl = [int(v) for v in find_contiguous(x)]
+    except Exception as e:
+        impl = 'err:' + core.exc_kind(e)
+    if x.tobytes() != before:
+        ctx.violate('contig:input-modified', 'find_contiguous modified its argument', c)
+    r = yield {'p': 'C15', 'op': 'contig', 'good': good}
+    if 'driver_error' in r:
+        raise core.DriverError(str(r))
+    mdl = 'err:' + r['err'] if 'err' in r else list(range(r['col0'], r['col0'] + r['ncol']))
+    if impl != mdl:
+        ctx.disagree('contig', c, impl, mdl)
+    if 'runs' in r and [tuple(t) for t in r['runs']] != runs:
+        ctx.disagree('contig:runs', c, runs, r['runs'])
+    # oracle: brute force over every block [st, st+l)
+    best = None
+    for l in range(n, 0, -1):
+        for st in range(0, n - l + 1):
+            if all(good[st:st + l]):
+                best = (st, l)
+                break
+        if best:
+            break
+    if best is None:
+        if impl != 'err:ValueError':
+            ctx.violate('contig:no-true-entry', 'find_contiguous returned %r for an argument without a true entry (ValueError expected)' % (impl,), c)
+    elif impl != list(range(best[0], best[0] + best[1])):
+        ctx.violate('contig:not-first-longest', 'find_contiguous returned %r, the first longest block of true entries is %r' % (
+            impl, list(range(best[0], best[0] + best[1]))), c)
+
+
+def _contig(ctx, cases=None):
+    if cases is None:
+        cases = []
+        for i in range(ctx.n(60, 3000)):
+            n = ctx.rng.choice([0, 1, 2, 3, 5, 8, 12, 20, 33])
+            kind = i % 4
+            if kind == 0:
+                good = [ctx.rng.random() < ctx.rng.choice([0.3, 0.6, 0.9]) for _ in range(n)]
+            elif kind == 1:       # equal runs (ties) separated by single false entries
+                L = ctx.rng.choice([1, 2, 3])
+                good = [(k % (L + 1)) != L for k in range(n)]
+                if n and ctx.rng.random() < 0.5:
+                    good[ctx.rng.randrange(n)] = False
+            elif kind == 2:       # all true / all false / one hole
+                good = [ctx.rng.choice([True, True, False])] * n
+                if n and ctx.rng.random() < 0.6:
+                    good[ctx.rng.randrange(n)] = not good[0]
+            else:                 # longest run at the end, after several shorter ones
+                good = [ctx.rng.random() < 0.5 for _ in range(n)] + [False] + [True] * ctx.rng.randrange(0, n + 2)
+            cases.append({'stream': 'contig', 'good': [bool(b) for b in good], 'dtype': ctx.rng.choice(['bool', 'int', 'float']),
+                          'nseed': ctx.rng.getrandbits(20)})
+        # bounded-exhaustive: every boolean vector up to length 8 (quick) / 12 (thorough)
+        top = ctx.n(8, 12)
+        for n in range(0, top + 1):
+            for bits in range(2 ** n):
+                cases.append({'stream': 'contig', 'good': [bool((bits >> k) & 1) for k in range(n)], 'dtype': 'bool', 'nseed': 0})
+    _run_stream(ctx, _contig_case, cases)
+
+
+# ---------------------------------------------------------------- single spectrum given as a vector (extension 2)
+def _pca_vec_case(ctx, c):
+    """pca_solve with ONE spectrum: one-dimensional newflux (model pcaSolveVec) or a 1 x npix matrix (model pcaSolveMax, nobj = 1).
+    The code returns only {'flux': newflux as float32}; a one-dimensional newivar is refused (IndexError: nzi[1]), a first
+    row of newivar without non-zero entry too (ValueError)."""
+    from pydl.pydlspec2d.spec1d import pca_solve
+    rs = np.random.RandomState(c['nseed'])
+    npix, form = c['npix'], c['form']
+    flux = rs.standard_normal(npix) * 10.0 ** rs.randint(-3, 6)
+    iv = rs.uniform(0.5, 2.0, size=npix)
+    iv[rs.uniform(size=npix) < 0.3] = 0.0
+    if not iv.any():
+        iv[rs.randint(npix)] = 1.0
+    if form == 'vec/ivar-vec':
+        f_in, i_in = flux, iv
+    elif form == 'vec/ivar-1row':
+        f_in, i_in = flux, iv.reshape(1, npix)
+    elif form == 'vec/ivar-2rows':
+        f_in, i_in = flux, np.vstack([iv, rs.uniform(0.5, 2.0, size=npix)])
+    elif form == 'vec/ivar-row0-zero':
+        f_in, i_in = flux, np.vstack([np.zeros(npix), rs.uniform(0.5, 2.0, size=npix)])
+    elif form == 'vec/ivar-1row-zero':
+        f_in, i_in = flux, np.zeros((1, npix))
+    elif form == 'row/ivar-1row':
+        f_in, i_in = flux.reshape(1, npix), iv.reshape(1, npix)
+    else:   # 'row/ivar-1row-zero'
+        f_in, i_in = flux.reshape(1, npix), np.zeros((1, npix))
+    ctx.seen(c)
+    full = dict(c, input={'newflux': _lst(f_in), 'newivar': _lst(i_in)})
+    before = _snap(f_in, i_in)
+    try:
+        out = pca_solve(f_in, i_in, maxiter=c['maxiter'], niter=c['niter'], nkeep=c['nkeep'])
+        impl = 'ok'
+    except Exception as e:
+        out, impl = None, 'err:' + core.exc_kind(e)
+    ctx.count('pca_vec:%s:%s' % (form, impl))
+    if _snap(f_in, i_in) != before:
+        ctx.violate('pca:input-modified', 'pca_solve modified newflux / newivar (single spectrum)', full)
+    i2 = np.atleast_2d(i_in)
+    if form.startswith('vec/'):
+        r = yield {'p': 'C15', 'op': 'pca_vec', 'npix': npix, 'ivar_dim': int(np.ndim(i_in)), 'flux': _bits(flux), 'ivar': [_bits(row) for row in i2]}
+    else:
+        r = yield {'p': 'C15', 'op': 'pca_max', 'nobj': 1, 'npix': npix, 'niter': c['niter'], 'nkeep': c['nkeep'], 'maxiter': c['maxiter'],
+                   'flux': [_bits(flux)], 'ivar': [_bits(row) for row in i2]}
+    if 'driver_error' in r:
+        raise core.DriverError(str(r))
+    mdl = 'err:' + r['err'] if 'err' in r else ('ok' if 'single' in r else 'full')
+    if impl != mdl:
+        ctx.disagree('pca_vec:outcome', c, impl, mdl)
+        return
+    if impl != 'ok':
+        return
+    got = np.asarray(out.get('flux'))
+    if not np.array_equal(got.ravel(), _unbits(r['single']).astype('f')):
+        ctx.disagree('pca_vec:flux', c, _lst(got), _lst(_unbits(r['single']).astype('f')))
+    # oracle: "all we can do is return it" - the dictionary holds the flux alone, as float32, in the shape it was given
+    if sorted(out.keys()) != ['flux'] or got.dtype != np.float32 or got.shape != np.shape(f_in) or not np.array_equal(got, np.asarray(f_in).astype('f')):
+        ctx.violate('pca_vec:not-the-input-spectrum', 'pca_solve with one spectrum returned %r instead of the spectrum itself as float32' % (
+            {k: np.shape(v) for k, v in out.items()},), full)
+
+
+def _pca_vec(ctx, cases=None):
+    if cases is None:
+        forms = ['vec/ivar-vec', 'vec/ivar-1row', 'vec/ivar-2rows', 'vec/ivar-row0-zero', 'vec/ivar-1row-zero', 'row/ivar-1row', 'row/ivar-1row-zero']
+        cases = []
+        for i in range(ctx.n(28, 700)):
+            cases.append({'stream': 'pca_vec', 'form': forms[i % len(forms)], 'npix': ctx.rng.choice([1, 2, 3, 7, 20, 64]), 'nseed': ctx.rng.getrandbits(32),
+                          'niter': ctx.rng.choice([0, 1, 3]), 'nkeep': ctx.rng.choice([1, 3]), 'maxiter': ctx.rng.choice([0, 2])})
+    _run_stream(ctx, _pca_vec_case, cases)
+
+
+# ---------------------------------------------------------------- HMF when k-means returns fewer than K centroids (extension 2)
+def _hmf_fewk_case(ctx, c):
+    """spectra with fewer than K distinct rows: scipy's kmeans drops the empty clusters and returns Kg < K centroids.  The code then
+    works with a (N x K) and g (Kg x M): ValueError in the first astepnn (non-negative mode) or in the normalisation after the
+    first sweep (default mode); with n_iter = 0 in the default mode the start values are returned.  Model: iterateColsKg."""
+    import warnings
+    import scipy.cluster.vq as vq
+    g_ = c['gen']
+    rs = np.random.RandomState(g_['nseed'])
+    N, M, K, nn, n_iter, eps = g_['N'], g_['M'], g_['K'], g_['nonneg'], g_['n_iter'], g_['eps']
+    xs = np.linspace(0, 1, M)
+    pat = np.array([1.0 + 0.8 * np.sin((k + 1) * 3.0 * xs + rs.uniform(0, 6)) + 0.3 * rs.standard_normal(M) for k in range(g_['distinct'])])
+    if nn:
+        pat = np.abs(pat) + 0.05
+    which = rs.randint(0, g_['distinct'], size=N)
+    which[:g_['distinct']] = np.arange(g_['distinct'])
+    s = np.ascontiguousarray(pat[which])
+    w = rs.uniform(0.5, 4.0, size=(N, M))
+    if ((s.sum(0) == 0) | ((s * w).sum(0) == 0)).any():
+        ctx.count('hmf_fewk:generator-gave-up')
+        return
+    ctx.seen(c)
+    full = dict(c, input={'spectra': _lst(s), 'invvar': _lst(w)})
+    s1, w1 = s.copy(), w.copy()
+    before = _snap(s1, w1)
+    rec = {}
+    orig = vq.kmeans
+
+    def spy(*a, **k):
+        out = orig(*a, **k)
+        rec['g0'] = np.array(out[0], dtype=float, copy=True)
+        return out
+    h = _mk_hmf(s1, w1, K, eps, nn, n_iter=n_iter, seed=g_['seed'])
+    with warnings.catch_warnings():
+        warnings.simplefilter('ignore')
+        try:
+            with mock.patch.object(vq, 'kmeans', spy):
+                out = h.solve()
+            impl = 'ok'
+        except Exception as e:
+            out, impl = None, 'err:' + core.exc_kind(e)
+    g0 = rec.get('g0')
+    if g0 is None or g0.ndim != 2 or g0.shape[0] >= K:
+        ctx.count('hmf_fewk:kmeans-returned-K-centroids')
+        return
+    Kg = g0.shape[0]
+    ctx.count('hmf_fewk:%s:K=%d:Kg=%d:n_iter=%s:%s' % ('nn' if nn else 'default', K, Kg, '0' if n_iter == 0 else '>0', impl))
+    if not nn and _snap(s1, w1) != before:
+        ctx.violate('hmf_solve:caller-arrays-modified:default', 'HMF.solve modified the spectra / invvar arrays of the caller (fewer centroids than K)', full)
+    r = yield {'p': 'C15', 'op': 'hmf_cols_kg', 'N': N, 'M': M, 'K': K, 'Kg': Kg, 'n_iter': n_iter, 's': _bits(s), 'w': _bits(w),
+               'g0': _bits(g0), 'nonneg': nn, 'eps': None if eps is None else core.f2b(eps)}
+    if 'driver_error' in r:
+        raise core.DriverError(str(r))
+    mdl = 'err:' + r['err'] if 'err' in r else 'ok'
+    if impl != mdl:
+        ctx.disagree('hmf_fewk:outcome', c, impl, mdl)
+        return
+    if impl != 'ok':
+        return
+    a, g = np.asarray(out['acoeff'], dtype=float), np.asarray(out['flux'], dtype=float)
+    if a.shape != (N, K) or g.shape != (Kg, M) or (r['col0'], r['ncol']) != (0, M):
+        ctx.disagree('hmf_fewk:shape', c, [list(a.shape), list(g.shape)], [[N, K], [Kg, M], r['col0'], r['ncol']])
+        return
+    ma, mg = _unbits(r['a']).reshape(N, K), _unbits(r['g']).reshape(Kg, M)
+    if not (_near(a, ma, TOL) and _near(g, mg, TOL)):
+        ctx.disagree('hmf_fewk:values', c, {'a': _lst(a)[:2], 'g': _lst(g)[:1]}, {'a': _lst(ma)[:2], 'g': _lst(mg)[:1]})
+    # oracle for the state that is returned without any update: unit-rms centroids, flat coefficients rms(spectrum) / K
+    if not _near(np.sqrt((g ** 2).mean(1)), np.ones(Kg), 1e-10):
+        ctx.violate('hmf_solve:not-unit-rms', 'returned components do not have unit rms (fewer centroids than K)', full)
+    if not _near(a, np.repeat(np.sqrt((s ** 2).mean(1))[:, None] / K, K, axis=1), 1e-12):
+        ctx.violate('hmf_fewk:start-coefficients', 'coefficients returned without any update are not rms(spectrum)/K', full)
+
+
+def _hmf_fewk(ctx, cases=None):
+    if cases is None:
+        cases = []
+        for i in range(ctx.n(24, 400)):
+            K = ctx.rng.choice([2, 3, 4])
+            cases.append({'stream': 'hmf_fewk', 'gen': {
+                'nseed': ctx.rng.getrandbits(32), 'K': K, 'distinct': ctx.rng.randrange(1, K), 'N': ctx.rng.randrange(4 * K + 4, 24),
+                'M': ctx.rng.randrange(3 * K + 5, 22), 'nonneg': i % 3 == 2, 'n_iter': ctx.rng.choice([0, 0, 1, 3]),
+                'eps': ctx.rng.choice([None, 0.0, 2.0]), 'seed': ctx.rng.choice([0, 1, ctx.rng.randrange(0, 10000)])}})
+    _run_stream(ctx, _hmf_fewk_case, cases)
+
+
 # ---------------------------------------------------------------- the check
-STREAMS = {'pca_many': _pca_many, 'chi2': _chi2, 'chi2v': _chi2v, 'pcomp': _pcomp, 'hmf_step': _hmf_step, 'hmf_solve': _hmf_solve, 'pca': _pca}
+STREAMS = {'contig': _contig, 'pca_vec': _pca_vec, 'hmf_fewk': _hmf_fewk, 'pca_many': _pca_many, 'chi2': _chi2, 'chi2v': _chi2v, 'pcomp': _pcomp, 'hmf_step': _hmf_step, 'hmf_solve': _hmf_solve, 'pca': _pca}
 
 
 def _quiet():
